@@ -285,6 +285,27 @@ def run_rules(ctx, cid, n_years):
                     ctx.V(f"C16:navigation-edge-returned:{k}", f"{cid} {x!r}.{k}({W.name}) returned {v!r}; the answer (day {e}) lies outside the calendar's range and must be refused", dict(case, w=w), repr(v), e)
                 elif gen.day_of(v) != e or v.day_of_week != W or v.calendar is not cal:
                     ctx.V(f"C16:navigation:{k}", f"{cid} {x!r}.{k}({W.name}) = {v!r} (day {gen.day_of(v)}), model day {e}", dict(case, w=w), gen.day_of(v), e)
+    # the rule factories refuse a first day of week that is not a day (this port does not range-check the minimum-days argument: not judged)
+    from pyoda_time.calendars import CalendarWeekRule, WeekYearRules
+    for nm, fn in (("for_min_days_in_first_week(4, NONE)", lambda: WeekYearRules.for_min_days_in_first_week(4, IsoDayOfWeek.NONE)), ("for_min_days_in_first_week(1, 0)", lambda: WeekYearRules.for_min_days_in_first_week(1, 0)),
+                   ("from_calendar_week_rule(FIRST_DAY, NONE)", lambda: WeekYearRules.from_calendar_week_rule(CalendarWeekRule.FIRST_DAY, IsoDayOfWeek.NONE)),
+                   ("for_min_days_in_first_week(4, 8)", lambda: WeekYearRules.for_min_days_in_first_week(4, 8))):
+        ctx.ev(); ctx.count("factory_error_contract")
+        try:
+            r_ = fn()
+            ctx.V("C16:invalid-rule-accepted", f"WeekYearRules.{nm} returned a rule ({type(r_).__name__}) instead of refusing", {"kind": "factory", "call": nm})
+        except (ValueError, TypeError) as e:
+            ctx.exc(e)
+        except Exception as e:  # noqa: BLE001
+            ctx.exc(e); ctx.V(f"C16:invalid-rule-wrong-error:{type(e).__name__}", f"WeekYearRules.{nm} raised {e!r}", {"kind": "factory", "call": nm})
+    x0 = gen.date_of(rng.randint(lo + 8, hi - 8), cal)
+    for nm, fn in (("next(NONE)", lambda: x0.next(IsoDayOfWeek.NONE)), ("previous(NONE)", lambda: x0.previous(IsoDayOfWeek.NONE))):
+        ctx.ev(); ctx.count("factory_error_contract")
+        try:
+            v_ = fn()
+            ctx.V("C16:navigation-to-no-day-accepted", f"{cid} {x0!r}.{nm} returned {v_!r}", {"kind": "factory", "call": nm})
+        except Exception as e:  # noqa: BLE001
+            ctx.exc(e)
     ctx.counters.setdefault("iso_vs_stdlib", 0); ctx.counters.setdefault("nth_weekday", 0)
 
 
